@@ -336,6 +336,7 @@ func (e *enc) unop(st *State, x *ssa.UnOp) {
 			// a package variable nothing but its package's init assigns (error sentinels, tables):
 			// it has the value it had on entry, whatever was called in between
 			ldst = e.entry
+			e.note("package variables that only their package's init assigns (error sentinels, tables) are read with the value they had on entry")
 		}
 		v := e.loadValue(ldst, addr, x.Type())
 		e.setVal(x, v)
